@@ -295,7 +295,8 @@ func (s *Scalar) CSelect(cond uint64, u, v *Scalar) error {
 		return errParamNilScalar
 	}
 
-	scalar.CMove(&s.S, cond, &u.S, &v.S)
+	// The underlying selection works on a single bit: normalise any non-zero condition word to 1.
+	scalar.CMove(&s.S, scalar.IsNonZero(cond), &u.S, &v.S)
 
 	return nil
 }
